@@ -1969,16 +1969,16 @@ impl<T: PPGEvaluatorStrategy> PPGEvaluator<T> {
     }
 
     fn propagate_job_required(dag: &mut GraphType, jobs: &mut [NodeInfo], node_idx: NodeIndex) {
-        let upstreams: Vec<_> = dag
-            .neighbors_directed(node_idx, Direction::Incoming)
-            .collect();
-        for upstream_idx in upstreams {
-            dag.edge_weight_mut(upstream_idx, node_idx)
-                .unwrap()
-                .required = Required::Yes;
-            match jobs[upstream_idx].state {
-                JobState::Always(_) | JobState::Output(_) => {}
-                JobState::Ephemeral(_) => Self::propagate_job_required(dag, jobs, upstream_idx),
+        // explicit stack instead of recursion: ephemeral chains can be arbitrarily long
+        let mut todo = vec![node_idx];
+        while let Some(idx) = todo.pop() {
+            let upstreams: Vec<_> = dag.neighbors_directed(idx, Direction::Incoming).collect();
+            for upstream_idx in upstreams {
+                dag.edge_weight_mut(upstream_idx, idx).unwrap().required = Required::Yes;
+                match jobs[upstream_idx].state {
+                    JobState::Always(_) | JobState::Output(_) => {}
+                    JobState::Ephemeral(_) => todo.push(upstream_idx),
+                }
             }
         }
     }
